@@ -3,6 +3,7 @@ import hashlib, itertools, json, zlib
 from props.c08 import ref_enc, ref_dec
 
 ID = "C07"
+CORPUS_FIRST = True
 RULE = ("io.run on chains built from the public constructors (malloc/buffer/file sinks, b64 enc/dec, hash, "
         "deflate/inflate, multiplexer any/all) plus a recording probe sink that fails on a chosen call; all "
         "compositions of every length <=10 into feed sizes for the b64/plex/buffer chains, random compositions "
